@@ -113,10 +113,12 @@ func (m *modeEnv) seed(links [][2]int64) error {
 		}
 		for t := int64(1); t <= 3; t++ {
 			p := parentOf(t)
+			otype := "pets"
 			if p == nil {
-				p = int64(0)
+				// an unlinked toy currently belongs to an owner of ANOTHER kind with the same key
+				p, otype = int64(1), "users"
 			}
-			if err := ex("INSERT INTO toys(id,owner_id,owner_type,name) VALUES (?,?,'pets',?)", t, p, fmt.Sprint("toy", t)); err != nil {
+			if err := ex("INSERT INTO toys(id,owner_id,owner_type,name) VALUES (?,?,?,?)", t, p, otype, fmt.Sprint("toy", t)); err != nil {
 				return err
 			}
 		}
